@@ -520,6 +520,12 @@ class Body:
         self._stable[l] = ok
         return ok
 
+    def user_locals_named(self):
+        """locals that are whole user variables with a source name"""
+        if not hasattr(self, '_uln'):
+            self._uln = {pl['l'] for n, pl in self.names.items() if not pl['p']} & set(self.user_locals)
+        return self._uln
+
     def name_of(self, local):
         for n, pl in self.names.items():
             if pl['l'] == local and not pl['p']:
@@ -574,41 +580,110 @@ class Body:
         pl = o['pl']
         return self.origin_place(pl, depth)
 
-    def origin_place(self, pl, depth=0):
+    _SUCC = ('Ok', 'Some', 'Continue', 'Ready')
+    _FAIL = ('Err', 'None', 'Break')
+
+    def _def_class(self, d, hints='first'):
+        """variant (class) of the enum value a definition produces, where that is evident.  `vclass` hints are left
+        by jump threading in the inliner: the class of the (possibly wrapped) result the copy was made for.
+        hints='first': the hint wins (selection by the class of the tracked result);  hints='last': the definition's own
+        variant wins, the hint is used only for definitions that have none (selection by a downcast)"""
+        own = None
+        hint = None
+        if d[0] == 'assign':
+            s = d[2]
+            hint = s.get('vclass')
+            rv = s['rv']
+            if rv['r'] == 'agg' and 'adt' in rv:
+                own = rv['variant']
+        else:
+            cs = d[2]
+            hint = cs.t.get('vclass')
+            if cs.is_('core::ops::try_trait::FromResidual::from_residual'):
+                own = 'failure'
+        if hints == 'first':
+            return hint or own
+        return own or hint
+
+    def _class_matches(self, cls, want):
+        if cls == want:
+            return True
+        if cls == 'success':
+            return want in self._SUCC
+        if cls == 'failure':
+            return want in self._FAIL
+        if want == 'success':
+            return cls in self._SUCC
+        if want == 'failure':
+            return cls in self._FAIL
+        return False
+
+    def select_def(self, whole, want, hints='first'):
+        """several definitions reach a read that presupposes variant `want` (a downcast, the Continue arm of `?`):
+        if the variant every definition produces is evident, only the matching ones can be the source"""
+        cls = [self._def_class(d, hints) for d in whole]
+        if any(c is None for c in cls):
+            return whole
+        sel = [d for d, c in zip(whole, cls) if self._class_matches(c, want)]
+        return sel if sel else whole
+
+    def origin_place(self, pl, depth=0, want=None, tid=None):
         l = pl['l']
         proj = tuple(pl['p'])
         if depth > 40:
             return ('unknown',)
         if l <= self.argc and l != 0:
             return ('place', l, proj)
-        if l in self.user_locals and not self.stable(l):
-            return ('place', l, proj)
         ds = self.defs().get(l, [])
         whole = [x for x in ds if x[0] == 'call' or not x[2]['pl']['p']]
+        if len(whole) > 1 and tid is not None:
+            # inside a private copy made by jump threading the reaching definition is the one of the same copy
+            same = [x for x in whole if (x[2].t.get('tid') if x[0] == 'call' else x[2].get('tid')) == tid]
+            if len(same) == 1:
+                whole = same
+        if len(whole) > 1 and proj and proj[0].startswith('downcast:'):
+            whole = self.select_def(whole, proj[0].split(':', 2)[2], hints='last')
+        if len(whole) > 1 and want:
+            whole = self.select_def(whole, want)
+        if l in self.user_locals and not self.stable(l):
+            # a user variable that is borrowed mutably or partially assigned is opaque; one that merely has several
+            # whole definitions may still be resolved by the variant the read presupposes
+            n_all = len([x for x in ds if x[0] == 'call' or not x[2]['pl']['p']])
+            if n_all <= 1 or len(whole) != 1 or l in self._mutb or any(x[0] == 'assign' and x[2]['pl']['p'] and x[2]['pl']['p'][0] != 'deref' for x in ds):
+                return ('place', l, proj)
         if len(whole) != 1:
             if not whole:
                 return ('place', l, proj)
             return ('multi', l, proj)
-        kind, blk, x = whole[0]
+        return self.origin_from_def(whole[0], proj, depth, want, tid)
+
+    def whole_defs(self, l):
+        return [x for x in self.defs().get(l, []) if x[0] == 'call' or not x[2]['pl']['p']]
+
+    def origin_from_def(self, d, proj=(), depth=0, want=None, tid=None):
+        """origin of the value one particular definition gives to its local (projected by proj)"""
+        kind, blk, x = d
+        proj = tuple(proj)
         if kind == 'call':
             return ('call', x, proj)
         rv = x['rv']
         r = rv['r']
+        tid = x.get('tid') or tid
         if r == 'use':
             inner = rv['a'][0]
             if inner['k'] == 'const':
                 return self.origin(inner, depth + 1)
             ipl = {'l': inner['pl']['l'], 'p': list(inner['pl']['p']) + list(proj)}
-            return self.origin_place(ipl, depth + 1)
+            return self.origin_place(ipl, depth + 1, want=x.get('vclass') or want, tid=tid)
         if r in ('ref', 'copyderef', 'rawptr'):
             ipl = rv['pl']
             p2 = list(proj)
             if r == 'ref' and p2 and p2[0] == 'deref':
                 p2 = p2[1:]
-                return self.origin_place({'l': ipl['l'], 'p': list(ipl['p']) + p2}, depth + 1)
+                return self.origin_place({'l': ipl['l'], 'p': list(ipl['p']) + p2}, depth + 1, want=want, tid=tid)
             if r == 'ref':
-                return ('ref', self.origin_place(ipl, depth + 1), proj)
-            return self.origin_place({'l': ipl['l'], 'p': list(ipl['p']) + p2}, depth + 1)
+                return ('ref', self.origin_place(ipl, depth + 1, want=want, tid=tid), proj)
+            return self.origin_place({'l': ipl['l'], 'p': list(ipl['p']) + p2}, depth + 1, want=want, tid=tid)
         if r == 'cast':
             return ('cast', self.origin(rv['a'][0], depth + 1), rv['ty'], proj, rv.get('kind', ''))
         if r == 'bin':
@@ -995,13 +1070,21 @@ class Program:
             raise AnchorLost("impl %s for %s :: %s (arg %s): %d candidates" % (trait, self_ty, method, arg0, len(hits)))
         return hits[0]
 
-    def promoted(self, body, idx):
-        bs = [b for b in self.bodies.get(body.path + '::{promoted#%d}' % idx, []) if b.is_promoted]
+    def promoted(self, body, idx, home=None):
+        bs = [b for b in self.bodies.get(norm(home or body.raw) + '::{promoted#%d}' % idx, []) if b.is_promoted]
         return bs[0] if bs else None
 
+    def promoted_of(self, body, o):
+        """promoted body a constant operand refers to (constants of inlined code live with the function they came from)"""
+        return self.promoted(body, o['promoted'], o.get('phome'))
 
-def load(files):
+
+def load(files, view=True):
+    """load fact files; with view=True unknown helper functions are inlined into their callers (see inline.py)"""
     p = Program()
     for f in files:
         p.load(f)
+    if view:
+        import inline
+        inline.apply(p)
     return p
